@@ -172,6 +172,12 @@ func binomial(k, w *big.Int, p *big.Float) *big.Float {
 
 //choose is the new logic of the sortition
 func choose(hash common.Hash, w *big.Int, p float64) int64 {
+	// p is committeeSize/totalStake. When the committee is larger than the total
+	// stake every unit of stake is selected; values above 1 are outside the
+	// domain of the binomial distribution (the CDF panics on them).
+	if p > 1 {
+		p = 1
+	}
 	hb := new(big.Int).SetBytes(hash[0:])
 	if hb.Cmp(maxVrfHashValue) == 0 {
 		return w.Int64()
